@@ -1072,7 +1072,7 @@ func (ev *Eval) callExpr(x *ECall) Val {
 	}
 	// array constructor T(e0, ..., eN-1) for small Go array types
 	if t := ev.lookupType(x.Fn); t != nil {
-		if at, ok := types.Unalias(t).Underlying().(*types.Array); ok && smallArr(at) && int64(len(x.Args)) == at.Len() && at.Len() > 1 {
+		if at, ok := types.Unalias(t).Underlying().(*types.Array); ok && smallArr(at) && int64(len(x.Args)) == at.Len() && at.Len() >= 1 {
 			var fs []string
 			for _, a := range x.Args {
 				fs = append(fs, ev.term(ev.coerce(ev.eval(a), at.Elem())))
@@ -1304,6 +1304,90 @@ func domDepth(b *ssa.BasicBlock) int {
 	return n
 }
 
+// pointResolver resolves source-level names at instruction idx of block b: the last DebugRef of the
+// name that is earlier in b or in a dominating block; locals living in an Alloc are read from memory.
+func (fe *FnEnc) pointResolver(b *ssa.BasicBlock, idx int, ev *Eval) func(string) (Val, bool) {
+	return func(name string) (Val, bool) {
+		for _, bb := range fe.fn.Blocks {
+			if bb != b && !bb.Dominates(b) {
+				continue
+			}
+			for _, ins := range bb.Instrs {
+				if al, ok := ins.(*ssa.Alloc); ok && al.Comment == name {
+					if v, ok := fe.vals[al]; ok && v.Addr != nil {
+						return ev.readAddr(v.Addr, v.Addr.elemType()), true
+					}
+				}
+			}
+		}
+		var best *ssa.DebugRef
+		bestDepth, bestIdx := -1, -1
+		for _, d := range fe.debugRefs()[name] {
+			db := d.Block()
+			di := -1
+			for i, ins := range db.Instrs {
+				if ins == ssa.Instruction(d) {
+					di = i
+				}
+			}
+			if db == b {
+				if di < idx && (bestDepth < 1<<30 || di > bestIdx) {
+					best, bestDepth, bestIdx = d, 1<<30, di
+				}
+				continue
+			}
+			if !db.Dominates(b) || bestDepth == 1<<30 {
+				continue
+			}
+			if dd := domDepth(db); dd > bestDepth || (dd == bestDepth && di > bestIdx) {
+				best, bestDepth, bestIdx = d, dd, di
+			}
+		}
+		// a phi named like the variable (at the head of b or of a dominating block) is a definition too
+		var bestPhi *ssa.Phi
+		phiDepth := -1
+		for _, bb := range fe.fn.Blocks {
+			if bb != b && !bb.Dominates(b) {
+				continue
+			}
+			for _, ins := range bb.Instrs {
+				p, ok := ins.(*ssa.Phi)
+				if !ok {
+					break
+				}
+				if p.Comment == name {
+					dd := domDepth(bb)
+					if bb == b {
+						dd = 1 << 29
+					}
+					if dd > phiDepth {
+						bestPhi, phiDepth = p, dd
+					}
+				}
+			}
+		}
+		if bestPhi != nil && (best == nil || (bestDepth != 1<<30 && phiDepth > bestDepth)) {
+			if v, ok := fe.vals[bestPhi]; ok {
+				return v, true
+			}
+		}
+		if best != nil {
+			if best.IsAddr {
+				a := fe.ptrAddr(fe.val(best.X))
+				return ev.readAddr(a, a.elemType()), true
+			}
+			if v, ok := fe.vals[best.X]; ok {
+				return v, true
+			}
+			switch best.X.(type) {
+			case *ssa.Parameter, *ssa.Const:
+				return fe.val(best.X), true
+			}
+		}
+		return Val{}, false
+	}
+}
+
 // loopResolver resolves source-level names at loop header h.
 func (fe *FnEnc) loopResolver(h *ssa.BasicBlock, over map[*ssa.Phi]Val, ev *Eval) func(string) (Val, bool) {
 	return func(name string) (Val, bool) {
@@ -1387,8 +1471,10 @@ func (fe *FnEnc) loopEnv() map[string]Val {
 	// inlined function: parameter names from its own contract (if any) else source names;
 	// names of the enclosing contract stay visible (its "loop *" clauses are evaluated here too)
 	env := map[string]Val{}
-	for k, v := range fe.top.paramVals {
-		env[k] = v
+	if fe.g.contractFor(fe.fn) == nil {
+		for k, v := range fe.top.paramVals {
+			env[k] = v
+		}
 	}
 	for _, p := range fe.fn.Params {
 		env[p.Name()] = fe.vals[p]
